@@ -745,7 +745,7 @@ def CalmOp (s : State) (op : Op) : Prop :=
   | .applyMany us _ => ∀ u ∈ us, CalmM τ ids u
   | .data b => DataOk E (CalmM τ ids) (CalmH τ ids) b
   | .timer (.s2d _ _ _) => False
-  | .timer (.probe _) => RoundAnswered s
+  | .timer (.probe tok) => tok = s.token → s.conn = .connected → RoundAnswered s
   | .timer _ => True
   | .announce d => IdWire d
   | .gossip => True
@@ -767,7 +767,8 @@ theorem CalmP.post {m : M Unit} (hm : CalmP E τ ids K m) (r : Res) (c : Ctx) (h
     CalmPost E τ ids K ((do m; pure r : M Res) c) :=
   (PresE.bind hm (fun _ => PresE.pure r)).run c hc
 
-theorem probeTimer_calm (hK : ∀ m, m ≠ .turnUndead → K m) (tok : Nat) (c : Ctx) (hc : CalmSent E τ ids K c.s c.eff) (hr : RoundAnswered c.s) :
+theorem probeTimer_calm (hK : ∀ m, m ≠ .turnUndead → K m) (tok : Nat) (c : Ctx) (hc : CalmSent E τ ids K c.s c.eff)
+    (hr : tok = c.s.token → c.s.conn = .connected → RoundAnswered c.s) :
     CalmPost E τ ids K ((do Foca.handleTimer E (.probe tok); pure Res.ok : M Res) c) := by
   unfold Foca.handleTimer CalmPost
   simp only [bind_run, getS_run]
@@ -776,7 +777,7 @@ theorem probeTimer_calm (hK : ∀ m, m ≠ .turnUndead → K m) (tok : Nat) (c :
     by_cases hcn : (c.s.conn != Conn.connected) = true
     · simp only [hcn, if_true, throwE]; exact hc
     · simp only [hcn, Bool.false_eq_true, if_false]
-      have := probeRandomMember_calm E τ ids K hK c hc hr
+      have := probeRandomMember_calm E τ ids K hK c hc (hr (by simpa using htok) (by simpa using hcn))
       cases hr : Foca.probeRandomMember E c with
       | stuck x => trivial
       | err e c' => rw [hr] at this; exact this
